@@ -22,13 +22,13 @@ n = len(rows)
 out = ["### D.25 Seeded changes: which check catches which change", "",
        f"{n} realistic source changes were written by independent sub-agents (each given only the text of one",
        "property and a scratch worktree; nothing from /verif): three per property in a first round (m1–m3), two in a",
-       "second (m4–m5), two in a third (m6–m7), two in a fourth (m8–m9) and three more (m10–m12) in a fifth round (ten properties) and a sixth round (the other ten; these agents were asked for changes that need a specific configuration, dtype, calling history or boundary value).  C08-m13 is the reverse of the repair of D48.  A seventh round (m13–m15, C08: m14–m16) went back to the ten properties of the fifth with the sixth round's brief.  Each was confirmed by `tools/confirm_mutant.py` in a scratch worktree:",
+       "second (m4–m5), two in a third (m6–m7), two in a fourth (m8–m9) and three more (m10–m12) in a fifth round (ten properties) and a sixth round (the other ten; these agents were asked for changes that need a specific configuration, dtype, calling history or boundary value).  C08-m13 is the reverse of the repair of D48.  A seventh round (m13–m15, C08: m14–m16) went back to the ten properties of the fifth with the sixth round's brief, an eighth (m13–m15) to the other ten.  Two candidates of the eighth round were NOT kept because they do not violate the property as stated (C18: a custom, non-homogeneous batch reduction; the caller mutating a tensor it passed as a kernel keyword argument - C18 says nothing about either).  Each was confirmed by `tools/confirm_mutant.py` in a scratch worktree:",
        "the patch applies, its demonstration exits 0 without and non-zero with the change, the repository's suite still",
        "passes with it (failures of the randomly flaky tests of the unchanged tree excepted), and the quick tier of",
        "the named checks was run against the changed tree (`VERIF_REPO`, scratch evidence directory).  Stored as",
        "`seeded/<id>/{patch.diff, demo.py, meta.json}`; full table with what each needs in order to manifest:",
        "`notes/SEEDED.md`.  † = missed when first run; the check was strengthened (never loosened) and the entry says",
-       "how (`history` in meta.json, summarised below the table).  First-run miss rate per round: 7/60, 9/40, 9/40, 6/40, 5/30, 7/30, 10/30 (in the fourth and fifth rounds 2 + 4 of the misses were caught by a sibling check, in the sixth one; the sixth round's misses were inputs the checks had not varied: integer spike counts / spike times, a non-default epsilon, narrow non-dyadic log-normals, a relative tolerance at 1.5e-5 steps, clear(keepshape=True) between re-configurations; the seventh round's: float64 groups / connections, sub-microsecond time scales, a step time changed by a relative 2^-40, integer reward tensors, application through trainer.update() with a shared updater, in-place transforms - three of its ten misses were caught by a sibling check).", "",
+       "how (`history` in meta.json, summarised below the table).  First-run miss rate per round: 7/60, 9/40, 9/40, 6/40, 5/30, 7/30, 10/30, 6/28 (in the fourth and fifth rounds 2 + 4 of the misses were caught by a sibling check, in the sixth one; the sixth round's misses were inputs the checks had not varied: integer spike counts / spike times, a non-default epsilon, narrow non-dyadic log-normals, a relative tolerance at 1.5e-5 steps, clear(keepshape=True) between re-configurations; the seventh round's: float64 groups / connections, sub-microsecond time scales, a step time changed by a relative 2^-40, integer reward tensors, application through trainer.update() with a shared updater, in-place transforms - three of its ten misses were caught by a sibling check; the eighth round's: a draw of exactly 0.0 (probability 2^-24), a fractional order on the unused half kernel, stored +-inf, a size-1 record aliasing the caller's tensor, a complex scale, a negative scale with a reward tensor).", "",
        "| id | change (abridged) | caught by | failing clauses @ site | |", "|---|---|---|---|---|"]
 for r in rows:
     out.append("| " + " | ".join(x.replace('|', '/') for x in r) + " |")
